@@ -10,6 +10,8 @@
 (*   x shape of the ECHConfigList around the configuration to be used      *)
 (*     {single, followed by a second usable one, followed by entries to    *)
 (*      skip (unknown version, unsupported KEM), preceded by such entries} *)
+(*   x how the caller drives the UConn {Handshake only, BuildHandshakeState *)
+(*     first (once, twice), build + SetClientRandom, build + SetSNI(same)}  *)
 (*   x server behaviour {accept, accept after HelloRetryRequest for every  *)
 (*     classical group the ID supports without sending a share, reject     *)
 (*     with 0/1/2 retry configs, reject after HRR, no ECH support}         *)
@@ -26,7 +28,11 @@ CONSTANTS CfgIds,      \* config_id values
           MaxLens,     \* maximum_name_length values
           NameSets,    \* subset of 1..Len(NamePairs)
           ShapeIdx,    \* subset of 1..Len(ListShapes): shapes of the client's ECHConfigList
-          Sample,      \* 99: the full product of the four sets above; 0..5: a Latin-square ninth of it (quick tier, chosen by VERIF_SEED)
+          UsageIdx,    \* subset of 1..Len(Usages): how the caller drives the UConn
+          Sample,      \* 99: the full product of the sets above;
+                       \* 10..15 (thorough): config_id x AEAD x maximum_name_length reduced to a Latin square (a third), the name pair
+                       \*         tied to it, full product with list shape x usage x ID x server x certificate;
+                       \* 0..5 (quick): list shape and usage tied to the Latin square as well
           Mutant       \* "none" | model-level sensitivity mutants (a wrong client must violate an invariant)
 
 IdTable == JsonDeserialize("ech_ids.json")     \* id -> [kinds, groups, shares] dumped from the real library (harness cmd echids)
@@ -96,17 +102,20 @@ ServerVariants(id) ==
 \* the name pair tied to it
 Rank(x, S) == Cardinality({y \in S : y < x})
 \* and the list shape tied to it (every shape occurs with every ID, server behaviour and certificate)
-Keep(c, a, m, n, sh) == \/ Sample = 99
-                        \/ /\ (Rank(c, CfgIds) + Rank(a, AeadIds) + Rank(m, MaxLens)) % 3 = Sample % 3
-                           /\ Rank(n, NameSets) = (Rank(c, CfgIds) + Rank(m, MaxLens) + (Sample \div 3)) % Cardinality(NameSets)
-                           /\ Rank(sh, ShapeIdx) = (Rank(c, CfgIds) + 2 * Rank(a, AeadIds) + Sample) % Cardinality(ShapeIdx)
+Keep(c, a, m, n, sh, u) ==
+   \/ Sample = 99
+   \/ /\ (Rank(c, CfgIds) + Rank(a, AeadIds) + Rank(m, MaxLens)) % 3 = (Sample % 10) % 3
+      /\ Rank(n, NameSets) = (Rank(c, CfgIds) + Rank(m, MaxLens) + ((Sample % 10) \div 3)) % Cardinality(NameSets)
+      /\ \/ Sample >= 10
+         \/ /\ Rank(sh, ShapeIdx) = (Rank(c, CfgIds) + 2 * Rank(a, AeadIds) + Sample) % Cardinality(ShapeIdx)
+            /\ Rank(u, UsageIdx) = (Rank(c, CfgIds) + 3 * Rank(m, MaxLens) + Sample) % Cardinality(UsageIdx)
 VariantsOf(id) == { [id |-> id, sname |-> NamePairs[n].s, pubname |-> NamePairs[n].p, cfgid |-> c, aead |-> a, maxlen |-> m,
-                     server |-> sv.server, hrr_group |-> sv.hrr_group, nretry |-> sv.nretry, cert |-> ct, shape |-> ListShapes[sh]] :
-                    <<n, c, a, m, sh>> \in {q \in NameSets \X CfgIds \X AeadIds \X MaxLens \X ShapeIdx : Keep(q[2], q[3], q[4], q[1], q[5])},
+                     server |-> sv.server, hrr_group |-> sv.hrr_group, nretry |-> sv.nretry, cert |-> ct, shape |-> ListShapes[sh], usage |-> Usages[u]] :
+                    <<n, c, a, m, sh, u>> \in {q \in NameSets \X CfgIds \X AeadIds \X MaxLens \X ShapeIdx \X UsageIdx : Keep(q[2], q[3], q[4], q[1], q[5], q[6])},
                     ct \in CertKinds, sv \in ServerVariants(id) }
 Variants == UNION {VariantsOf(id) : id \in Capable}
 Scenario(v) == [id |-> v.id, sname |-> v.sname, pubname |-> v.pubname, server |-> v.server, hrr_group |-> v.hrr_group, cert |-> v.cert,
-                cfgid |-> v.cfgid, aead |-> v.aead, maxlen |-> v.maxlen, nretry |-> v.nretry, shape |-> v.shape,
+                cfgid |-> v.cfgid, aead |-> v.aead, maxlen |-> v.maxlen, nretry |-> v.nretry, shape |-> v.shape, usage |-> v.usage,
                 cfg_list |-> ModelList(v),
                 retry_list |-> IF v.nretry = 0 THEN <<>> ELSE EncCfgList([k \in 1..v.nretry |-> ModelCfg(v, k)])]
 
@@ -114,8 +123,10 @@ Init == /\ scn \in {Scenario(v) : v \in Variants}
         /\ cli = CInit /\ srv = SInit /\ obs = ObsInit
 
 \* ---------- actions (one per implementation step; the steps themselves are ECH!C_* / S_* / O_*)
-BuildOuter == cli.pc = "init" /\ cli' = C_BuildOuter(cli) /\ UNCHANGED <<scn, srv, obs>>
-SendCH1 == /\ cli.pc = "built"
+\* the first build, and every further one a usage implies (the hello is marshalled again; what is sent is OuterHello(scn, 1) whenever)
+BuildOuter == /\ cli.pc = "init" \/ (cli.pc = "built" /\ cli.nb < BuildsOf(scn.usage))
+              /\ cli' = C_BuildOuter(cli) /\ UNCHANGED <<scn, srv, obs>>
+SendCH1 == /\ cli.pc = "built" /\ cli.nb = BuildsOf(scn.usage)
            /\ cli' = C_SendCH1(cli) /\ obs' = O_Hello(obs, OuterHello(scn, 1)) /\ UNCHANGED <<scn, srv>>
 SrvOnCH1 == /\ srv.pc = "wait_ch" /\ Len(obs.chs) = 1
             /\ srv' = S_OnCH1(srv, scn)
@@ -155,5 +166,5 @@ Progress == Terminal => Len(obs.chs) = (IF SrvSendsHRR(scn) THEN 2 ELSE 1)
 
 Emit == Terminal => PrintT(<<"SCN", ToJson([id |-> scn.id, sname |-> scn.sname, pubname |-> scn.pubname, cfgid |-> scn.cfgid, aead |-> scn.aead,
                                               maxlen |-> scn.maxlen, server |-> scn.server, hrr_group |-> scn.hrr_group, nretry |-> scn.nretry,
-                                              cert |-> scn.cert, shape |-> scn.shape, minver |-> 0])>>)
+                                              cert |-> scn.cert, shape |-> scn.shape, usage |-> scn.usage, minver |-> 0])>>)
 =============================================================================
